@@ -131,9 +131,55 @@ def write_replay(prop, ob):
     return path
 
 
+BASELINE_FILE = os.path.join(VERIF, 'baseline_obligations.json')
+
+
+def norm_id(oid):
+    import re
+    return re.sub(r'[#@]\d+', '#', oid)
+
+
+def apply_baseline(prop, obs):
+    """Obligations discharged on the pinned tree (committed baseline) that were not generated on this tree
+    are added as undecided: a check must not pass because obligations silently disappeared."""
+    if os.environ.get('VERIF_WRITE_BASELINE') == '1':
+        return obs
+    if not os.path.exists(BASELINE_FILE):
+        return obs
+    with open(BASELINE_FILE) as f:
+        base = json.load(f).get(prop)
+    if not base:
+        return obs
+    have = {norm_id(o.id) for o in obs}
+    out = list(obs)
+    for b in base:
+        if b not in have:
+            out.append(Ob(id=b, status=UNDECIDED, backend='none', clause='obligation of the committed baseline was not generated on this tree',
+                          solver_output='not generated: the function left the shape its contract was written for, or a path under contract no longer exists'))
+    return out
+
+
+def write_baseline(prop, obs):
+    data = {}
+    if os.path.exists(BASELINE_FILE):
+        with open(BASELINE_FILE) as f:
+            data = json.load(f)
+    data[prop] = sorted({norm_id(o.id) for o in obs if o.status == DISCHARGED and not o.bounded})
+    with open(BASELINE_FILE, 'w') as f:
+        json.dump(data, f, indent=0)
+
+
+BASELINED = ('C01', 'C03', 'C04', 'C06', 'C11', 'C12', 'C13', 'C14', 'C19', 'C20', 'C05')
+
+
 def finish(prop, tier, seed, obs, t0, *, functions, trusted_base, assumptions,
            checker_cmd, min_obligations=1, extra=None, level='proof', explanation=None):
     """Classify results, print verdict lines, write evidence, return exit code."""
+    if prop in BASELINED:
+        if os.environ.get('VERIF_WRITE_BASELINE') == '1':
+            write_baseline(prop, obs)
+        else:
+            obs = apply_baseline(prop, obs)
     findings = load_findings()
     proved = [o for o in obs if o.status == DISCHARGED and not o.bounded]
     bounded = [o for o in obs if o.bounded]
